@@ -686,3 +686,39 @@ mod tests {
         })
     }
 }
+
+/// Hook H6 (verification only): the private sampler layers, unchanged, callable with an arbitrary
+/// random source.
+#[cfg(prio_verif)]
+pub mod verif {
+    use super::*;
+
+    /// `sample_bernoulli(n/d)`.
+    pub fn bernoulli<R: Rng + ?Sized>(n: BigUint, d: BigUint, rng: &mut R) -> bool {
+        sample_bernoulli(&Ratio::new(n, d), rng)
+    }
+    /// `sample_bernoulli_exp1(n/d)`, `n/d <= 1`.
+    pub fn bernoulli_exp1<R: Rng + ?Sized>(n: BigUint, d: BigUint, rng: &mut R) -> bool {
+        sample_bernoulli_exp1(&Ratio::new(n, d), rng)
+    }
+    /// `sample_bernoulli_exp(n/d)`.
+    pub fn bernoulli_exp<R: Rng + ?Sized>(n: BigUint, d: BigUint, rng: &mut R) -> bool {
+        sample_bernoulli_exp(&Ratio::new(n, d), rng)
+    }
+    /// `sample_geometric_exp(n/d)`.
+    pub fn geometric_exp<R: Rng + ?Sized>(n: BigUint, d: BigUint, rng: &mut R) -> BigUint {
+        sample_geometric_exp(&Ratio::new(n, d), rng)
+    }
+    /// `sample_discrete_laplace(n/d)`.
+    pub fn discrete_laplace<R: Rng + ?Sized>(n: BigUint, d: BigUint, rng: &mut R) -> BigInt {
+        sample_discrete_laplace(&Ratio::new(n, d), rng)
+    }
+    /// `sample_discrete_gaussian(n/d)`.
+    pub fn discrete_gaussian<R: Rng + ?Sized>(n: BigUint, d: BigUint, rng: &mut R) -> BigInt {
+        sample_discrete_gaussian(&Ratio::new(n, d), rng)
+    }
+    /// `UniformBigUint::new(low, high).sample()`; `None` for an empty range.
+    pub fn uniform<R: Rng + ?Sized>(low: BigUint, high: BigUint, rng: &mut R) -> Option<BigUint> {
+        UniformBigUint::new(&low, &high).ok().map(|u| u.sample(rng))
+    }
+}
